@@ -301,6 +301,9 @@ func genC10(seed uint64, tier string, idx int) *Plan {
 			p.Conns[ci].Hostile = true
 			s, note := g.hostileServiceStream(ci)
 			g.hostileActor(ci, s, note)
+			if g.r.chance(20) {
+				g.slowSubPackages(p.Actors[len(p.Actors)-1], ci)
+			}
 			if string(p.Conns[ci].Phone) == string(p.Conns[0].Phone) {
 				ha := p.Actors[len(p.Actors)-1]
 				ha.Ops[0].After = &Dep{Actor: p.Actors[0].Name, N: len(p.Actors[0].Ops)}
@@ -505,4 +508,34 @@ func errOf(e *Ev) string {
 		return "response"
 	}
 	return e.Err
+}
+
+// slowSubPackages appends to a hostile connection's script what a terminal on a bad link does: the first packets
+// of a sub-packaged message, a silence longer than the 60 s after which the server forgets the transfer, some
+// other frame, and then later packets of the same message.
+func (g *genCtx) slowSubPackages(a *Actor, ci int) {
+	// keep only the part of the script before a close
+	for i, op := range a.Ops {
+		if op.K == "fin" || op.K == "rst" {
+			a.Ops = a.Ops[:i]
+			break
+		}
+	}
+	total := 3 + g.r.intn(4)
+	id := []uint16{0x0200, 0x0801, 0x0704}[g.r.intn(3)]
+	fr, _ := g.transferFrames(ci, id, total, 0, false)
+	send := func(f SentFrame) { a.Ops = append(a.Ops, Op{K: "send", Data: f.Raw, End: true}) }
+	send(fr[0])
+	if g.r.chance(50) {
+		send(fr[1])
+	}
+	a.Ops = append(a.Ops, Op{K: "quiet"}, Op{K: "sleep", D: int64(expireAfter) + int64(g.r.intn(5000))*1e6})
+	send(g.mkFrame(ci, 0x0002, g.randSerial(), nil))
+	a.Ops = append(a.Ops, Op{K: "quiet"})
+	for _, f := range fr[2:] {
+		send(f)
+	}
+	send(fr[1])
+	a.Ops = append(a.Ops, Op{K: "quiet"})
+	g.p.Faults = append(g.p.Faults, "clock.cross_60s", "input.slow_subpackages")
 }
